@@ -11,14 +11,14 @@ import (
 
 // Outcome is what one simulated run produced.
 type Outcome struct {
-	Violations []*Violation
-	Evals      int
-	Faults     map[string]int
-	States     []string
-	SimTime    time.Duration
-	Sample     interface{}
+	Violations   []*Violation
+	Evals        int
+	Faults       map[string]int
+	States       []string
+	SimTime      time.Duration
+	Sample       interface{}
 	Inconclusive int
-	Debug func(w io.Writer)
+	Debug        func(w io.Writer)
 	// Post, when set, runs after the bubble has ended (on the real clock).
 	Post func(o *Outcome)
 }
